@@ -657,10 +657,10 @@ pub fn growth_sched_scenarios() -> Vec<SchedScenario> {
 
 /// all multisets of three single-operation tasks over a reduced menu that spreads over three L2
 /// slices of a 2-slice cache (eviction write-backs in flight while other tasks look slices up)
-pub fn triple_scenarios(g: &Geo, setups_filter: &[&str]) -> Vec<SchedScenario> {
+pub fn triple_scenarios(g: &Geo, setups_filter: &[&str], wide: bool) -> Vec<SchedScenario> {
     let (cs, bs, tb) = (g.cs(), g.bs(), g.tb());
     let w = |off: u64, len: u64, tag: u32| Op::Write { off, len: len as usize, tag };
-    let menu: Vec<(&str, Op)> = vec![
+    let mut menu: Vec<(&str, Op)> = vec![
         ("wX2", w(2 * cs, cs, 0x11)),
         ("wT", w(tb, bs, 0x12)),
         ("wU", w(2 * tb.min(g.vsize() / 4), bs, 0x13)),
@@ -668,6 +668,14 @@ pub fn triple_scenarios(g: &Geo, setups_filter: &[&str]) -> Vec<SchedScenario> {
         ("rX", Op::Read { off: 0, len: (2 * cs) as usize }),
         ("flush", Op::Flush),
     ];
+    if wide {
+        menu.extend([
+            ("wXY", w(cs - bs, 2 * bs, 0x14)),
+            ("dXY", Op::Discard { off: 0, len: 2 * cs }),
+            ("wS", w(g.sl().min(tb - cs), bs, 0x15)),
+            ("shrink", Op::Shrink),
+        ]);
+    }
     let cfg = cfg_of(g, "small");
     let mut out = vec![];
     for (sn, ik, setup) in sched_setups(g) {
@@ -926,7 +934,7 @@ pub fn sched_family(prop: &str) -> i32 {
         scenarios.extend(unfused);
     }
     // three concurrent calls over three slices of a 2-slice cache
-    scenarios.extend(triple_scenarios(&g, if thorough { &["Xdirty", "XYflushed", "XYcold"] } else { &["Xdirty"] }));
+    scenarios.extend(triple_scenarios(&g, if thorough { &["Xdirty", "XYflushed", "XYcold"] } else { &["Xdirty"] }, thorough));
     // metadata growth racing other calls (slow executions: 2 MiB images): one of each kind in the quick tier
     scenarios.extend(growth_sched_scenarios().into_iter().filter(|s| thorough || s.name.ends_with("-vs-flush")));
     if let Ok(f) = std::env::var("QMC_ONLY") {
@@ -1082,6 +1090,12 @@ pub fn crash_family(prop: &str) -> i32 {
     if prop == "C04" {
         let g = images::G10;
         let mut sc = sched_scenarios(&g, &["XYflushed", "Xdirty"], &["small"], true);
+        if thorough {
+            // three concurrent calls, one of them a flush, over three slices of a 2-slice cache
+            let mut tr = triple_scenarios(&g, &["Xdirty", "XYflushed"], false);
+            tr.retain(|s| s.tasks.iter().flatten().any(|o| matches!(o, Op::Flush)));
+            sc.extend(tr);
+        }
         sc.retain(|s| s.tasks.iter().flatten().any(|o| matches!(o, Op::Write { .. } | Op::Discard { .. })));
         let (b, per, secs) = if thorough { (2, 100_000, 600) } else { (1, 2_000, 20) };
         match sched_explore(&run, &["C04"], &sc, b, per, secs) {
